@@ -4,7 +4,7 @@
 (* PCE identity (name of 1, 4 or 12 bytes), optional MRU list (0, 1, 2 or 15  *)
 (* ids), location-code length.  The harness composes SRC sections from them.  *)
 EXTENDS Integers, Sequences, FiniteSets, TLC, Json, IOUtils, FiniteSetsExt, SequencesExt
-Fru == {"", "p", "m", "c", "s", "pc", "ps", "pcs", "mc", "ms", "mcs", "cs"}
+Fru == {"", "p", "m", "c", "s", "pc", "ps", "pcs", "mc", "ms", "mcs", "cs", "pm", "pmc", "pms", "pmcs"}
 Pce == {-1, 1, 4, 12}
 Mru == {-1, 0, 1, 2, 15}
 Loc == {0, 4, 20, 80}
